@@ -230,25 +230,31 @@ func runPackCase(base string, c *pCase) (obs *pObs, infra string) {
 			}
 		}
 		p := newPacker(g, root, c.Opts)
-		for _, pre := range c.Pre {
-			if pre.Op == "packsame" {
-				// the very Packer value used below first packs another root
-				var sink bytes.Buffer
-				p.Pack(g.Abs(root, []string{"A", "cw", "t"}), &sink)
-			}
+		other := g.Abs(root, []string{"A", "cw", "t"})
+		if _, err := os.Lstat(other); err == nil {
+			// A Packer is an options object: the very value used below first packs another
+			// root (which holds an external link, so every validation path runs). This must not matter.
+			var sink bytes.Buffer
+			p.Pack(other, &sink)
 		}
 		var buf bytes.Buffer
 		var wg sync.WaitGroup
-		var buf2 bytes.Buffer
+		var sinkW io.Writer = &buf
 		if c.Conc {
+			// a second Pack on the same Packer value, of another tree, overlapping with the main one:
+			// the main call's writer blocks on its first Write until the other call is done
+			gate := make(chan struct{})
 			wg.Add(1)
 			go func() {
 				defer wg.Done()
 				defer func() { recover() }()
-				newPacker(g, root, c.Opts).Pack(g.Abs(root, c.Src), &buf2)
+				var sink bytes.Buffer
+				p.Pack(other, &sink)
 			}()
+			go func() { wg.Wait(); close(gate) }()
+			sinkW = &gateWriter{w: &buf, gate: gate}
 		}
-		meta, perr := p.Pack(g.Spell(root, c.Spelling), &buf)
+		meta, perr := p.Pack(g.Spell(root, c.Spelling), sinkW)
 		wg.Wait()
 		obs.St = statusOf(perr)
 		if perr != nil {
@@ -319,6 +325,18 @@ func runPackCase(base string, c *pCase) (obs *pObs, infra string) {
 // ruleText renders a rule file: a leading comment line keeps it distinguishable from an empty file.
 func ruleText(lines []string) []byte {
 	return []byte("# rules generated from the specification\n" + strings.Join(lines, "\n") + "\n")
+}
+
+// gateWriter blocks its first Write until gate is closed.
+type gateWriter struct {
+	w    io.Writer
+	gate chan struct{}
+	once sync.Once
+}
+
+func (g *gateWriter) Write(p []byte) (int, error) {
+	g.once.Do(func() { <-g.gate })
+	return g.w.Write(p)
 }
 
 func hasRuleFile(t []arena.PN) bool {
